@@ -372,7 +372,15 @@ Judge(q) ==
       vdom == IF hasFocus THEN ValDom(q.fmt, q.feat) ELSE "in"
       kdom == IF hasFocus THEN KeyDom(q.fmt, q.kc) ELSE "in"
   IN
-  IF q.stage # "done"
+  IF q.stage = "build"
+  THEN \* every scenario row describes an isotherm the constructor's own rules admit (valid labels, any metadata):
+       \* a refusal while constructing it is never acceptable, whatever the focus entry
+       LET vd == IF q.pg THEN "refused_pg" ELSE "refused_other" IN
+       [verdict |-> vd, ok |-> FALSE, failing |-> {"valid_isotherm_refused_at_construction"}, dom |-> dom, vdom |-> vdom, kdom |-> kdom,
+        ldom |-> LayoutDom(q.fmt, q.layout), allowed |-> {"preserved"},
+        focus |-> <<"same", "">>, impl |-> impl, id_equal |-> TRUE, id_obliged |-> FALSE,
+        agrees |-> FALSE, by_value |-> FALSE, by_key |-> FALSE]
+  ELSE IF q.stage # "done"
   THEN LET vd == IF q.pg THEN "refused_pg" ELSE "refused_other" IN
        [verdict |-> vd, ok |-> vd \in allowed, failing |-> {}, dom |-> dom, vdom |-> vdom, kdom |-> kdom, ldom |-> LayoutDom(q.fmt, q.layout), allowed |-> allowed,
         focus |-> <<vd, q.exc>>, impl |-> impl, id_equal |-> TRUE, id_obliged |-> FALSE,
